@@ -66,7 +66,14 @@ EX_ALPHABET = [[HANDSHAKE, 1, 0, 1, 1], [HANDSHAKE, 1, 0, 2, 1], [HANDSHAKE, 2, 
                [KICK, 1, 2], [UNREG, 1], [SWEEP], [TICK, 3], [HEARTBEAT, 1], [BREAK, 1]]
 EX_ALPHABET_LIMIT = [[HANDSHAKE, 1, 0, 1, 1], [HANDSHAKE, 2, 0, 1, 1], [HANDSHAKE, 2, 0, 2, 1], [HANDSHAKE, 3, 0, 2, 1],
                      [HANDSHAKE, 3, 1, 1, 1], [REGRAW, 3, 1], [REGRAW, 2, 0], [CLOSE, 1], [REMOVE, 2], [KICK, 1, 3],
-                     [SWEEP], [TICK, 3], [HEARTBEAT, 2]]
+                     [SWEEP], [TICK, 3], [HEARTBEAT, 2],
+                     # at the cap (MaxControlConnections = 2): re-registration of the oldest / of a non-oldest record, authenticated or not
+                     [REREG, 1, 0], [REREG, 1, 2], [REREG, 2, 1], [REGCLAIM, 2, 2]]
+CFG_CAP2 = {"maxConn": 0, "maxCtl": 2, "tmo": 2}
+WITNESS_CAP_REREG_OLDEST = [[ACCEPT, 1], [ACCEPT, 2], [HANDSHAKE, 1, 0, 5, 1], [HANDSHAKE, 2, 0, 6, 1], [REREG, 1, 7], [HEARTBEAT, 2]]
+WITNESS_CAP_REREG_NEWEST = [[ACCEPT, 1], [ACCEPT, 2], [HANDSHAKE, 1, 0, 5, 1], [HANDSHAKE, 2, 0, 6, 1], [REREG, 2, 7], [HEARTBEAT, 1]]
+WITNESS_CAP_REREG_UNAUTH = [[ACCEPT, 1], [ACCEPT, 2], [HANDSHAKE, 1, 0, 5, 1], [HANDSHAKE, 2, 0, 6, 1], [REREG, 1, 0], [REGCLAIM, 2, 5]]
+WITNESS_CAP_REREG_NEWSTREAM = [[ACCEPT, 1], [ACCEPT, 2], [HANDSHAKE, 1, 0, 5, 1], [HANDSHAKE, 2, 0, 6, 1], [REREGNEW, 2, 7], [CLOSE, 2]]
 # re-registration of an existing ConnID: replacement unauthenticated / pre-authenticated, same stream / fresh stream object
 EX_ALPHABET_REREG = [[HANDSHAKE, 1, 0, 1, 1], [HANDSHAKE, 2, 0, 1, 1], [HANDSHAKE, 2, 0, 2, 1], [REREG, 1, 0], [REREG, 1, 2], [REREG, 2, 1],
                      [REREGNEW, 1, 0], [REREGNEW, 1, 2], [REGRAW, 3, 0], [CLOSE, 1], [REMOVE, 1], [KICK, 2, 3], [AUTHRAW, 1, 1], [UNREG, 1]]
@@ -171,6 +178,12 @@ def gen_structured(rng, n, maxdepth):
             for c in conns:
                 if len(ops) < depth and rng.random() < 0.8:
                     ops.append([HANDSHAKE, c, 0, rng.choice(clients), 1])
+        if cfg["maxCtl"] and rng.random() < 0.3:
+            # fill the control-connection cap, then re-register the oldest / a non-oldest / a random record
+            for c in conns[:cfg["maxCtl"]]:
+                ops.append([HANDSHAKE, c, 0, rng.choice(clients), 1])
+            ops.append(rng.choice([[REREG, conns[0], rng.choice([0] + clients)], [REREG, conns[min(cfg["maxCtl"], len(conns)) - 1], rng.choice([0] + clients)],
+                                   [REGCLAIM, rng.choice(conns), rng.choice(clients)], [REREGNEW, rng.choice(conns), rng.choice([0] + clients)]]))
         while len(ops) < depth:
             o = rand_op(rng, conns, clients)
             if script and rng.random() < 0.5:
@@ -348,6 +361,8 @@ def run(ctx, only_cases=None):
     probes += [{"cfg": CFG_CLOUD_FAIL, "ops": WITNESS_CLOUD_FAIL, "stream": "witness"}, {"cfg": CFG_CLOUD_FAIL, "ops": WITNESS_CLOUD_FAIL_SWEEP, "stream": "witness"},
                {"cfg": CFG0, "ops": WITNESS_PERSISTENT, "stream": "witness"}, {"cfg": CFG_CLOUD_FAIL, "ops": WITNESS_ADAPTER_ERR, "stream": "witness"},
                {"cfg": CFG0, "ops": WITNESS_CLAIM, "stream": "witness"}]
+    probes += [{"cfg": CFG_CAP2, "ops": w, "stream": "witness"} for w in (WITNESS_CAP_REREG_OLDEST, WITNESS_CAP_REREG_NEWEST,
+                                                                            WITNESS_CAP_REREG_UNAUTH, WITNESS_CAP_REREG_NEWSTREAM)]
     if only_cases is not None:
         cases = probes[:2] + only_cases
     else:
